@@ -126,6 +126,8 @@ class Oracle:
 
     def allele(self, r, c):
         fixed = (self.shape["reads"][r].get("alleles") or {}).get(str(c))
+        if self.shape.get("errorfree"):
+            return z3.If(self.sym("h_%d" % c) == self.sym("s_%d" % r), z3.IntVal(0), z3.IntVal(1))
         return z3.IntVal(fixed) if fixed is not None else self.sym("a_%d_%d" % (r, c))
 
     def assign_cost(self, c, t, Bc, assign, al, hp):
